@@ -99,6 +99,27 @@ def gen_config(rng, tier):
             for off in range(0, 20, lim):
                 ops.append("page t=t1 g=- d=- off=%d lim=%d" % (off, lim))
         cases.append(Case("paging-%d" % i, ops, True, "boundary"))
+    # routed publishes: the node that forwards a publish to the leader stores the content as a temporary value
+    # (SetTmpValue), then the committed publish is applied on it - with the same content, or with another one when a
+    # later publish overtook it; the key must be readable, listed and recorded in the history like any other
+    n = 0
+    for existing in (False, True):
+        for same in (True, False):
+            for k in ("d1|g1|t1", "app.yaml|DEFAULT_GROUP|-", "a|g2|public"):
+                t = k.split("|")[2]
+                ops, hid = [], 0
+                if existing:
+                    hid += 1
+                    ops.append("add %s c=61 type=yaml desc=first hid=%d mark=- time=%d user=-" % (k, hid, hid))
+                ops.append("add d3|g1|%s c=7b7d type=- desc=- hid=%d mark=- time=%d user=-" % (t, hid + 1, hid + 1))
+                hid += 2
+                ops.append("tmp %s c=686a" % k)
+                if rng.random() < 0.5:
+                    ops.append("get %s" % k)
+                ops.append("add %s c=%s type=- desc=- hid=%d mark=- time=%d user=admin" % (k, "686a" if same else "6869", hid, hid))
+                ops += ["get %s" % k, "page t=%s g=- d=- off=0 lim=10" % t, "hist %s off=0 lim=10" % k, "dump"]
+                cases.append(Case("routed-%d" % n, ops, True, "boundary"))
+                n += 1
     # temporary values and separator characters inside key fields: correspondence only
     for i in range(600 if big else 60):
         st = {"hid": 0, "t": 0}
@@ -121,7 +142,9 @@ class C09(Prop):
         "random histories (4-40 ops) of publish / remove / full import / get / page / history over 6 dataIds x 3 groups x "
         "4 tenants (incl. empty and 'public'), contents with repeats (unchanged-md5 branch) and sizes 0..10 KB, type "
         "strings incl. unknown and upper case, exact/fuzzy/empty filters, page sizes 1..7 and 0xffffffff; one key "
-        "published 230 times (history bound); complete page enumerations; M* cases add temporary values and 0x02 inside "
+        "published 230 times (history bound); complete page enumerations; routed publishes (temporary value, then the "
+        "committed publish with the same or another content, on new and existing keys: read, listing, history); M* cases "
+        "add temporary values and 0x02 inside "
         "key fields (correspondence only). Real ConfigActor through its actor messages + hook dump of index/cache; "
         "oracle = naive map from key to last applied publish. non-trivial = >=4 ops"))]
     trusted_base = [
